@@ -50,6 +50,8 @@ type Gen struct {
 	// catch triggers (no issue) and struct/slice nodes whose LAST test fails — so that a skipped constraint
 	// turns a failing execution into a successful one (C01)
 	NearSuccess bool
+	// Prepop: Parse cases only, into a fully populated destination
+	Prepop bool
 }
 
 func (g *Gen) id() int { g.nextID++; return g.nextID }
@@ -472,7 +474,7 @@ func (g *Gen) Input(n *Node) V {
 	if g.NearSuccess {
 		switch n.Kind {
 		case "prim":
-			if n.Req == nil && r.P(1, 6) {
+			if n.Req == nil && (r.P(1, 6) || (g.Prepop && r.P(1, 3))) {
 				return VNil()
 			}
 			return dToV(g.primD(n.PK, false))
@@ -652,6 +654,15 @@ func (g *Gen) Case(id int) *Case {
 	c.Schema = g.Node(0)
 	if g.FmtModes {
 		c.Fmt = rng.Pick(r, []string{"", "", "exec:en", "exec:es", "i18n:-", "i18n:es", "i18n:en", "i18n:fr"})
+	}
+	if g.Prepop {
+		c.Mode = "p"
+		c.Input = g.Input(c.Schema)
+		saved := g.Populated
+		g.Populated = true
+		c.Dest = g.DestValue(c.Schema, 0)
+		g.Populated = saved
+		return c
 	}
 	if r.P(45, 100) {
 		c.Mode = "v"
